@@ -24,6 +24,7 @@ def extra(report, env):
         res.append(('frame.' + s.name, s.ok, 'mutation sink at line %d targets %s (%s)' % (s.line, s.owner, s.note)))
     res.append(('frame.sinks-enumerated', len(res) > 50, '%d sinks' % len(res)))
     res.extend(frame.module_state(repo))
+    res.extend(frame.mutable_defaults(repo))
     known_clock = None
     for name, ok, detail in frame.clock_reads(repo):
         if not ok and name.endswith('parse_date.reads.dateutil-default'):
@@ -48,6 +49,7 @@ def extra(report, env):
     formulas = ['1+2*3', 'SUM(A1:B2)', 'x&"a"', 'IF(x>1,"y","n")', '1/0', 'nosuch', 'NOSUCH(1)', '((', 'SUM(1/0)', '"abc', 'MYF(1)', 'BOOM()', '{1,2;3,4}',
                 'INDEX({1,2,3},2)', 'A1+$B$2', 'TRIM("  a  b ")', '-x', '#N/A', 'DATE(2020,1,31)+1', 'LARGE(lst,2)', 'MEDIAN(lst)', 'SUM(lst,lst)',
                 'RAISE("#N/A")', 'IFNA(RAISE("#N/A"),1)', 'RAISE("#GETTING_DATA",1)', 'ISNA(RAISE("#N/A",3))', 'RAISE("#DIV/0!",2)', 'RAISE()+1',
+                '1 2 ~', '#REF! + ~', 'MYF(1) + ~', 'A1 + ~', '1/0 + ~', 'x ~', '~', '"abc ~', 'BOOM() + ~', 'SUM(A1:B2) ~ 1', '1 + ~ + MYF(2)',
                 'IFERROR(RAISE("#NUM!",1),RAISE("#REF!"))', 'ERROR.TYPE(RAISE("#VALUE!"))', 'SUM(1,RAISE("#NULL!",3))', 'SQRT(0-1)', 'RAISE(,9)']
 
     def mk():
@@ -85,11 +87,19 @@ def extra(report, env):
         a = mk()
         b = mk()
         b.debug = True
+        la, lb = [], []
+        for q, lg in ((a, la), (b, lb)):
+            # what the host gets to see (events, in order) is part of the outcome
+            q.on('callFunction', lambda name, args, setter, _l=lg: _l.append(('fn', name)))
+            q.on('callVariable', lambda name, setter, _l=lg: _l.append(('var', name)))
+            q.on('callCellValue', lambda cell, setter, _l=lg: _l.append(('cell', cell.label)))
+            q.on('callRangeValue', lambda c1, c2, setter, _l=lg: _l.append(('range', c1.label, c2.label)))
         with contextlib.redirect_stderr(io.StringIO()):
             rb = b.parse(f)
+        ra = a.parse(f)
         cases += 1
-        if repr(a.parse(f)) != repr(rb) and len(fails) < 5:
-            fails.append({'formula': f, 'detail': 'debug changes the outcome: %r vs %r' % (a.parse(f), rb)})
+        if (repr(ra) != repr(rb) or la != lb) and len(fails) < 5:
+            fails.append({'formula': f, 'detail': 'debug changes the outcome: %r with events %r vs %r with events %r' % (ra, la, rb, lb)})
     # --- host values are never mutated
     hosts = [[3, 1, 2], [[3, 1], [2, 9]], ['b', 'a', None], [5, [4, [3, [2]]]], [2.5, 1, 7, 7]]
     funcs = ['SUM', 'LARGE2', 'MEDIAN', 'MAX', 'MIN', 'AVERAGE', 'COUNT', 'CONCATENATE', 'AND', 'OR', 'INDEX2', 'MATCH2', 'TEXTJOIN2', 'PRODUCT', 'MODE',
